@@ -182,13 +182,27 @@ def run(ctx, chk, tier="quick"):
         if refidx_node is None:
             chk.indeterminate("C09.O1", where_of(f, main_ins.call), "reference index not identifiable from the origin computation")
             continue
-        defs = flow.reaching_defs(refidx_node) or set()
+        # the assignments that can supply the index, followed through plain aliases (`idx = tmp` with tmp set in two branches)
+        leaf_defs = []
+        seen_defs = set()
+        work = [refidx_node]
+        while work and len(seen_defs) < 40:
+            nn = work.pop()
+            for d in sorted(flow.reaching_defs(nn) or set()):
+                if (d, nn.id) in seen_defs:
+                    continue
+                seen_defs.add((d, nn.id))
+                st = flow.cfg.stmt_of.get(d)
+                if not isinstance(st, ast.Assign):
+                    continue
+                from ..cfg import assigned_value
+                v_ = assigned_value(flow.cfg, d, nn.id)
+                if isinstance(v_, ast.Name) and (flow.reaching_defs(v_) or set()) and not flow.is_param(v_):
+                    work.append(v_)
+                else:
+                    leaf_defs.append((st, v_ if v_ is not None else st.value))
         kinds = {}
-        for d in sorted(defs):
-            st = flow.cfg.stmt_of.get(d)
-            if not isinstance(st, ast.Assign):
-                continue
-            v = st.value
+        for st, v in leaf_defs:
             names = {n.id for n in ast.walk(flow.expand(v, keep={ref, step_name})) if isinstance(n, ast.Name)}
             if ref in names:
                 kind, d_ = classify_rounding(mod, flow.expand(v, keep={ref, step_name}), quotient)
